@@ -15,14 +15,26 @@ import itertools
 
 import numpy as np
 
-from mc.canon import digest
+from mc.canon import digest as _digest
+
+
+def digest(img):
+    """Content digest of an image; the origin enters by value (an origin spelled with ints and the
+    same corner spelled with floats are the same placement -- the storage type is not content)."""
+    import copy
+
+    if hasattr(img, "origin") and np.asarray(img.origin).dtype != float:
+        c = copy.copy(img)
+        c.origin = type(img.origin)(np.asarray(img.origin, dtype=float))
+        return _digest(c)
+    return _digest(img)
 
 ID = "C02"
 LEVEL = "model_checking"
 EXHAUSTIVE = True
 RULE = (
     "roots: base images {2-D, 3-D} x payload {scalar, vector(2)} x time {single, dated series(3), relative-time series(3), series without "
-    "time info} x origin {default, user}; BFS over the real Image objects with transitions = every non-empty voxel box (tuple of slices), "
+    "time info} x origin {default, user (floats), user spelled with ints}; BFS over the real Image objects with transitions = every non-empty voxel box (tuple of slices), "
     "time_slice(k), time_interval(every non-empty slice); on every transition the alternative ROI forms (open-ended None slices, VoxelArray "
     "corners incl. corners outside the image, CoordinateArray corners at +1/4 / +3/4 voxel and up to 2 voxels outside) must give the "
     "identical image; search runs to a fixpoint (all nesting depths). Assembly lattice: 2..5 single images x {dates, relative times, "
@@ -48,7 +60,9 @@ def cases(tier):
     for dim in (2, 3):
         for payload in ("scalar", "vector"):
             for tk in ("single", "dated", "times", "notime"):
-                for origin in ("default", "user"):
+                for origin in ("default", "user", "user-int"):
+                    if origin == "user-int" and tk in ("times", "notime"):
+                        continue
                     out.append({"kind": "bfs", "dim": dim, "shape": list(BASES[tier][dim]), "payload": payload, "time": tk, "origin": origin})
     for dim in (2, 3):
         for payload in ("scalar", "vector"):
@@ -83,6 +97,10 @@ def base_image(dim, shape, payload, tk, origin):
     kw["dimensions"] = [vs[a] * shape[a] for a in range(dim)]
     if origin == "user":
         kw["origin"] = [3.0, -2.0, 5.0][:dim]
+    elif origin == "user-int":
+        # the same corner spelled with Python ints (an integer-typed origin array), while boxes
+        # start at fractional physical offsets (voxel sizes 0.5 and 0.25)
+        kw["origin"] = [3, -2, 5][:dim]
     kw["name"] = "base"
     return darsia.Image(data, **kw)
 
